@@ -941,8 +941,8 @@ def _flatten(v):
         return out
     return [v]
 
-_CANON_STD = re.compile(r'\b(?:std|core|alloc)::(?:[a-z_][a-z_0-9]*::(?=[A-Za-z_]|<impl))*')
-_CANON_MOD = re.compile(r'(?<![\w:])(?:f64|f32|num|slice|str|option|result|vec|iter|mem|cmp|ops|array|char|ptr|string|boxed|rc|sync|cell|collections|time|convert|mpsc|hash_map|btree_map|vec_deque|fmt|borrow|clone|default|marker)::(?=[A-Za-z_]|<impl)')
+_CANON_STD = re.compile(r'\b(?:std|core|alloc|__core|__alloc|__std)::(?:[a-z_][a-z_0-9]*::(?=[A-Za-z_]|<impl))*')
+_CANON_MOD = re.compile(r'(?<![\w:])(?:f64|f32|num|slice|str|option|result|vec|iter|mem|cmp|ops|array|char|ptr|string|boxed|rc|sync|cell|collections|time|convert|mpsc|hash_map|btree_map|vec_deque|fmt|borrow|clone|default|marker|bool|i64|u64|usize|i32|u32|u8|unit|tuple)::(?=[A-Za-z_]|<impl)')
 def canon(callee):
     """callee text without std path qualifiers: `std::f64::<impl f64>::sqrt`, `core::f64::<impl f64>::sqrt` and `f64::<impl f64>::sqrt` all
     become `<impl f64>::sqrt`; `<std::slice::Iter<'_, T> as Iterator>::map` becomes `<Iter<'_, T> as Iterator>::map`"""
